@@ -71,28 +71,26 @@ impl binrw::BinRead for Mso {
         let ucid = ConnectionId::read_options(reader, endian, ())?;
         let plid = PlayerId::read_options(reader, endian, ())?;
         let usertype = MsoUserType::read_options(reader, endian, ())?;
+        let pos = reader.stream_position()?;
         let textstart = u8::read_options(reader, endian, ())?;
-        let (textstart, msg) = if textstart > 0 {
-            let name = Vec::<u8>::read_options(
-                reader,
-                endian,
-                binrw::VecArgs {
-                    count: textstart as usize,
-                    inner: (),
-                },
-            )?;
 
-            let msg: Vec<u8> = binrw::helpers::until_eof(reader, endian, ())?;
+        // Decode the message as a whole: a codepage selected in the name part stays selected in
+        // the text part, exactly as LFS renders it.
+        let raw: Vec<u8> = binrw::helpers::until_eof(reader, endian, ())?;
+        let raw = strip_trailing_nul(&raw);
+        let msg = codepages::to_lossy_string(raw).to_string();
 
-            let name = codepages::to_lossy_string(strip_trailing_nul(&name));
-            let msg = codepages::to_lossy_string(strip_trailing_nul(&msg));
-            (name.len() as u8, format!("{name}{msg}"))
+        // textstart is an offset into the wire bytes. Move it so that it is an offset into the
+        // decoded string instead.
+        let textstart = if textstart > 0 {
+            let name_end = (textstart as usize).min(raw.len());
+            let name = codepages::to_lossy_string(&raw[..name_end]);
+            u8::try_from(name.len()).map_err(|_| binrw::Error::AssertFail {
+                pos,
+                message: "textstart does not fit into a u8 once the message is decoded".into(),
+            })?
         } else {
-            let msg: Vec<u8> = binrw::helpers::until_eof(reader, endian, ())?;
-            (
-                0_u8,
-                codepages::to_lossy_string(strip_trailing_nul(&msg)).to_string(),
-            )
+            0_u8
         };
 
         Ok(Self {
@@ -124,10 +122,21 @@ impl binrw::BinWrite for Mso {
         // if we need to encode the string, we need to move the textstart transparently for the
         // user
         let textstart = if self.textstart > 0 {
-            let name = &self.msg[..self.textstart as usize];
-            let textstart = codepages::to_lossy_bytes(name).len();
+            let pos = writer.stream_position()?;
+            let name = self
+                .msg
+                .get(..self.textstart as usize)
+                .ok_or_else(|| binrw::Error::AssertFail {
+                    pos,
+                    message: "textstart is not on a character boundary of msg".into(),
+                })?;
 
-            textstart as u8
+            u8::try_from(codepages::to_lossy_bytes(name).len()).map_err(|_| {
+                binrw::Error::AssertFail {
+                    pos,
+                    message: "textstart does not fit into a u8 once the message is encoded".into(),
+                }
+            })?
         } else {
             self.textstart
         };
